@@ -1119,7 +1119,7 @@ class Entity(SubmodelElement, base.UniqueIdShortNamespace):
             item_del_hook=self._check_constraint_del_spec_asset_id
         )
         self._validate_global_asset_id(global_asset_id)
-        self._validate_aasd_014(entity_type, global_asset_id, bool(specific_asset_id))
+        self._validate_aasd_014(entity_type, global_asset_id, len(self._specific_asset_id) > 0)
 
     @property
     def entity_type(self) -> base.EntityType:
